@@ -4,7 +4,7 @@
 (* machine: every property is an invariant over the history (documents      *)
 (* added) and the accumulated tree after each stage.                        *)
 (***************************************************************************)
-EXTENDS AyBuild, Props_C02, Props_C03, Props_C04, Props_C05, Props_C15
+EXTENDS AyBuild, Props_C02, Props_C03, Props_C04, Props_C05, Props_C08, Props_C15
 
 HistDocs  == [i \in 1..Len(hist) |-> hist[i].sd]
 HistSafes == [i \in 1..Len(hist) |-> hist[i].safe]
@@ -34,6 +34,9 @@ C04_Witness == phase = "done" /\ C04_Judged(HistDocs, accs)
 Inv_C05_Wrap    == Check("Inv_C05_Wrap", Terminal => C05_ModelWrap(HistDocs, accs))
 Inv_C05_Sibling == Check("Inv_C05_Sibling", Terminal => C05_ModelSibling(HistDocs, accs))
 Inv_C05_Frame   == Check("Inv_C05_Frame", C05_Frame(HistDocs, accs))
+
+Inv_C08 == Check("Inv_C08", C08_Holds(HistDocs, accs))
+Inv_C08_Names == Check("Inv_C08_Names", C08_ModelNames(HistDocs, accs))
 
 Inv_C15 == Check("Inv_C15", Terminal => C15_ModelLaws(HistDocs, acc))
 
